@@ -726,6 +726,7 @@ package http2
 //@ ensures widths: (local(fullMatch) && !sens ==> local(bits) == 7) && (add ==> local(bits) == 6) &&
 //@ |   (!add && !(local(fullMatch) && !sens) && local(index) > 0 ==> local(bits) == 4)
 //@ # the table's backing array is the one it had or a new one: tables never come to share storage
+//@ ensures tbl: hpackOK(hp)
 //@ ensures place: dynplace(hp)
 
 // ---------------------------------------------------------------------------
@@ -1598,3 +1599,27 @@ package http2
 //@ # and it is acknowledged with exactly one SETTINGS frame carrying ACK
 //@ assert@call:(*Conn).writeOut#1 ack: arg1 != nil && typeis(arg1.fr, *Settings) && as(arg1.fr, *Settings).ack
 //@ ensures once: called((*Conn).writeOut) == 1
+
+// ---- client: opening a stream ----
+
+//@ func (*Conn).writeRequest$2
+//@ inline
+//@ requires ptrs: enc != nil && hpackOK(enc) && hf != nil && h != nil
+
+//@ func (*Conn).writeRequest
+//@ props C02 C18
+//@ requires recv: c != nil && ctx != nil && ctx.Request != nil && c.bw != nil && c.enc != nil && hpackOK(c.enc)
+//@ opt noframe=true
+//@ opt noovf=true
+//@ # a stream is opened only while the connection is below the server's SETTINGS_MAX_CONCURRENT_STREAMS, has seen no GOAWAY
+//@ # and has identifiers left; its identifier is odd when the counter is (client-initiated streams, RFC 7540 5.1.1)
+//@ assert@call:(*FrameHeader).SetStream#1 limit: c.openStreams < c.maxStreams && c.goAway == 0
+//@ assert@call:(*FrameHeader).SetStream#1 ident: arg1 == old(c.nextID) && arg1 <= 2147483647 && c.nextID == arg1 + 2
+//@ # the request starts with one HEADERS frame that ends the header block, and ends the stream exactly when there is no body
+//@ assert@call:(*FrameHeader).WriteTo#1 headers: typeis(arg0.fr, *Headers) && as(arg0.fr, *Headers).endHeaders &&
+//@ |   (as(arg0.fr, *Headers).endStream <==> !hasBody) && arg0.stream == old(c.nextID)
+//@ # (the loop over the request's header fields is a range over an iterator function: the clauses of its body, the
+//@ # synthetic closure writeRequest$2, are the loop's invariant)
+//@ # the stream counts as open only once its HEADERS frame has been written
+//@ ensures counted: c.openStreams == old(c.openStreams) || c.openStreams == old(c.openStreams) + 1
+//@ ensures refused: old(c.openStreams) >= old(c.maxStreams) ==> r0 != nil && c.openStreams == old(c.openStreams) && c.nextID == old(c.nextID)
